@@ -94,6 +94,7 @@ type action struct {
 	SignCN     string   `json:"sign_cn,omitempty"`
 	RootSerial string   `json:"root_serial,omitempty"`
 	SignSerial string   `json:"sign_serial,omitempty"` // rotate: "" = default next
+	Collide    bool     `json:"collide,omitempty"`     // rotate: the override repeats an earlier serial
 	Time       string   `json:"time,omitempty"`
 	Req        *request `json:"req,omitempty"`
 	Image      []byte   `json:"-"`
@@ -760,7 +761,17 @@ func (m *model) step(t ev.TB, a action) bool {
 		m.usedSer[a.RootCN+"\x00"+a.RootSerial] = true
 	case "rotate":
 		if err, pan := w.rotate(a); err != nil || pan != nil {
+			if a.Collide && pan == nil {
+				// refusing a rotation whose certificate would take an existing certificate's name is fine;
+				// the history goes on with the old primary
+				ev.Class("history", "colliding-serial-rotation/refused")
+				m.hist[len(m.hist)-1] += "=refused"
+				return true
+			}
 			return fail("rotate", err, pan)
+		}
+		if a.Collide {
+			ev.Class("history", "colliding-serial-rotation/performed")
 		}
 		m.rotations++
 		// endorsements issued before a rotation remain verifiable after it
@@ -1010,8 +1021,24 @@ func TestHistories(t *testing.T) {
 					a.SignCN = genCN(t, "signCN", lastCN)
 				}
 				lastCN = a.SignCN
-				if rapid.IntRange(0, 9).Draw(t, "serialKind") >= 6 {
+				switch sk := rapid.IntRange(0, 9).Draw(t, "serialKind"); {
+				case sk >= 6:
 					a.SignSerial = genSerial(t, "override", func(s string) bool { return s == "0" || m.usedSer[a.SignCN+"\x00"+s] })
+				case sk == 5:
+					// an override that repeats the serial of an earlier certificate with this common name:
+					// the authority may refuse the rotation (the storage-backed one does), but if it goes
+					// through, what it signs afterwards must still verify
+					var used []string
+					for k := range m.usedSer {
+						if strings.HasPrefix(k, a.SignCN+"\x00") {
+							used = append(used, strings.TrimPrefix(k, a.SignCN+"\x00"))
+						}
+					}
+					sort.Strings(used)
+					if len(used) > 0 {
+						a.SignSerial = used[rapid.IntRange(0, len(used)-1).Draw(t, "repeatSerial")]
+						a.Collide = true
+					}
 				}
 				a.Time = genTimeIn(t, "t", m.root.NotBefore, m.root.NotAfter)
 			case "endorse":
@@ -1033,6 +1060,16 @@ func TestHistories(t *testing.T) {
 			}
 			if !m.step(t, a) {
 				return
+			}
+			if a.Kind == "rotate" && a.Collide && !strings.HasSuffix(m.hist[len(m.hist)-1], "=refused") {
+				// what the authority signs after such a rotation must verify
+				ea := action{Kind: "endorse", Req: genRequest(t, nEnd, m)}
+				ea.Image, ea.ImageNote = genImage(t, false)
+				nEnd++
+				endorsed = true
+				if !m.step(t, ea) {
+					return
+				}
 			}
 			if a.Kind == "rotate" {
 				// remember the serial the new certificate got, so that overrides stay collision free
